@@ -276,6 +276,14 @@ Fixpoint first_enabled (s : st) (ls : list label) : option st :=
   | l :: r => match step s l with Some s' => Some s' | None => first_enabled s r end
   end.
 
+(* The canonical scheduler.  The "wire" observation (the peer has READ the request)
+   can be missing when the protocol dies right after SendMessage queued the
+   request, so LWire may also be taken silently - but only when nothing else
+   except the timer is enabled. *)
+Definition sched (s : st) : list label :=
+  [LAcquire; LRvStart; LRvNoBlocks; LRvBlock; LRvDone; LDeliver; LSendFail; LDoneCase; LRecvExit; LWatch]
+  ++ match pc s with CSend c => [LWire c] | _ => [] end ++ [LFail].
+
 (* fire observable o, after as many canonical internal steps as needed *)
 Fixpoint advance (fuel : nat) (s : st) (o : label) : option st :=
   match step s o with
@@ -283,14 +291,14 @@ Fixpoint advance (fuel : nat) (s : st) (o : label) : option st :=
   | None =>
       match fuel with
       | O => None
-      | S f => match first_enabled s internals with Some s1 => advance f s1 o | None => None end
+      | S f => match first_enabled s (sched s) with Some s1 => advance f s1 o | None => None end
       end
   end.
 
 Fixpoint settle (fuel : nat) (s : st) : st :=
   match fuel with
   | O => s
-  | S f => match first_enabled s internals with Some s1 => settle f s1 | None => s end
+  | S f => match first_enabled s (sched s) with Some s1 => settle f s1 | None => s end
   end.
 
 End Variant.
